@@ -1,5 +1,7 @@
 import Driver.ELDriver
 import Driver.SimDriver
+import Driver.DispatcherDriver
+import Driver.RandomTripDriver
 open Lean
 
 def handle (line : String) : String :=
@@ -13,6 +15,8 @@ def handle (line : String) : String :=
       match kind with
       | "el" => runEL j
       | "sim" => SimDriver.run j
+      | "dispatcher" => DispatcherDriver.run j
+      | "randomtrip" => RandomTripDriver.run j
       | _ => .error s!"unknown kind {kind}"
     match r with
     | .ok v => v.compress
